@@ -98,3 +98,43 @@ Example C08_paths_forgotten_first_same_history :
   let s0 := fst (run_lines Nat.eqb ex_pf ex_g (fun _ => true) (MkS2 [] [] []) (declaration true [(2, [])] [] [7])) in
   snd (run_lines Nat.eqb ex_pf ex_g (fun _ => true) s0 (declaration true [(6, [])] [7] [7; 7])) = [None; None; Some 2; None; Some 8; Some 8].
 Proof. exact path_first_same_history. Qed.
+
+(* ---- the table a history of declarations builds ----
+   conversions.equate stores BOTH directions of the pair, unconditionally (the per-run obligation Gen_eqshape.equate_stores_shipped reads the
+   two assignments off the source and the theorem below identifies them with Model.Convert.equate).  Hence, after ANY history of declarations
+   and re-declarations (non-zero magnitudes, two different units): the two directions of every declared pair multiply to one; the figure of the
+   latest declaration of a pair is the one in force in both directions; declarations of other pairs leave it alone.  A reverse ratio kept from
+   an earlier declaration (dict.setdefault) is refuted on the history a = 1.7 b, a = 1.7018 b. *)
+From Measured Require Import Model.Declare Proofs.EquateFacts.
+Local Open Scope Q_scope.
+
+Theorem C08_source_stores_are_model_equate : forall stores t ma a mb b,
+  shapes_eqb stores shipped_stores = true -> equate_of stores t ma a mb b = equate t ma a mb b.
+Proof. exact shipped_stores_are_equate. Qed.
+Print Assumptions C08_source_stores_are_model_equate.
+
+Theorem C08_declarations_keep_table_reciprocal : forall ds t,
+  Forall decl_ok ds -> Reciprocal t -> Reciprocal (fold_left declare ds t).
+Proof. exact declarations_reciprocal. Qed.
+Print Assumptions C08_declarations_keep_table_reciprocal.
+
+Theorem C08_latest_declaration_in_force : forall t ma a mb b,
+  ukey_eqb a b = false ->
+  tget (equate t ma a mb b) a b = Some (mb / ma) /\ tget (equate t ma a mb b) b a = Some (ma / mb).
+Proof. exact latest_declaration_in_force. Qed.
+Print Assumptions C08_latest_declaration_in_force.
+
+Theorem C08_other_declaration_keeps : forall t ma a mb b c d,
+  ukey_eqb a c && ukey_eqb b d = false -> ukey_eqb b c && ukey_eqb a d = false ->
+  tget (equate t ma a mb b) c d = tget t c d.
+Proof. exact other_declaration_keeps. Qed.
+Print Assumptions C08_other_declaration_keeps.
+
+Theorem C08_refuted_reverse_ratio_kept :
+  exists r r', let t := equate_keep (equate_keep [] 1 kx_a (17 # 10) kx_b) 1 kx_a (17018 # 10000) kx_b in
+    tget t kx_a kx_b = Some r /\ tget t kx_b kx_a = Some r' /\ ~ r * r' == 1.
+Proof. exact keep_declared_reverse_refuted. Qed.
+
+Example C08_redeclared_pair_reciprocal :
+  Reciprocal (fold_left declare [(1, kx_a, 17 # 10, kx_b); (1, kx_a, 17018 # 10000, kx_b)] []).
+Proof. exact redeclared_pair_reciprocal. Qed.
